@@ -227,8 +227,6 @@ var theFalsePtr = &theFalse
 
 var reflectTrue = reflect.ValueOf(theTrue)
 var reflectFalse = reflect.ValueOf(theFalse)
-var reflectTruePtr = reflect.ValueOf(theTruePtr)
-var reflectFalsePtr = reflect.ValueOf(theFalsePtr)
 
 func (bv booleanValue) ReflectTo(c px.Context, value reflect.Value) {
 	if value.Kind() == reflect.Interface {
@@ -238,11 +236,11 @@ func (bv booleanValue) ReflectTo(c px.Context, value reflect.Value) {
 			value.Set(reflectFalse)
 		}
 	} else if value.Kind() == reflect.Ptr {
-		if bv {
-			value.Set(reflectTruePtr)
-		} else {
-			value.Set(reflectFalsePtr)
-		}
+		// a bool of its own per destination (a shared one changes under every holder when one of them writes through
+		// its pointer), of the destination's element type, which may be a defined type
+		p := reflect.New(value.Type().Elem())
+		p.Elem().SetBool(bool(bv))
+		value.Set(p)
 	} else {
 		value.SetBool(bool(bv))
 	}
